@@ -182,6 +182,10 @@ def std_kinds(names, cfg_fn=None, cfg_fn2=None, partial_fn=None):
                      lambda v: {k: x for k, x in zip(('b', 'a'), reversed(v))}),
       'dictmix': Kind('dictmix', 2, False,
                       lambda v: {1: v[0], 'a': v[1], None: 0, (1,): 0}),
+      'dictenum': Kind('dictenum', 2, False, lambda v: {
+          N.Color.RED: v[0], N.Color.BLUE: v[1], (1, 'a'): 0, ('a', 1): 0}),
+      'dictenumr': Kind('dictenumr', 2, False, lambda v: {
+          ('a', 1): 0, (1, 'a'): 0, N.Color.BLUE: v[1], N.Color.RED: v[0]}),
       'dictmixr': Kind('dictmixr', 2, False,
                        lambda v: {(1,): 0, None: 0, 'a': v[1], 1: v[0]}),
       'cfgpos': Kind('cfgpos', 3, True, mk_cfgpos, True),
